@@ -285,13 +285,18 @@ AttrInputs ==
      pl \in {"", "console", "lnk"}, ov \in BOOLEAN, c \in AttrChoices}
 
 \* -- stmts: several statements, comments, defaults, files split by include / subninja
+\* (the binding of d and its re-binding decide what the statements after them mean: moved into
+\* a subninja file the re-binding must stay there, moved into an included file it must not)
 StmtSeq == << [k |-> "comment", text |-> " generated"],
+              Bind("d", P("x")),
               [k |-> "pool", name |-> "p", depth |-> 3],
               Rule("r", << <<"command", <<Lit("run "), Var("out")>> >>, <<"pool", P("p")>> >>),
-              Build(<<PP("a")>>, <<>>, "r", <<PP("s")>>, <<>>, <<>>, <<>>, <<>>),
+              Build(<<PP("a")>>, <<>>, "r", <<PP("s")>>, <<Path("", <<Var("d"), Lit("0")>>)>>, <<>>, <<>>, <<>>),
               [k |-> "comment", text |-> "second"],
-              Build(<<PP("b")>>, <<PP("b2")>>, "r", <<PP("a")>>, <<>>, <<PP("s2")>>, <<PP("a")>>, <<>>),
-              Build(<<PP("all")>>, <<>>, "phony", <<PP("b")>>, <<>>, <<>>, <<>>, <<>>),
+              Bind("d", P("y")),
+              Build(<<PP("b")>>, <<PP("b2")>>, "r", <<PP("a")>>, <<Path("", <<Var("d"), Lit("in")>>)>>,
+                    <<PP("s2")>>, <<PP("a")>>, <<>>),
+              Build(<<PP("all")>>, <<>>, "phony", <<PP("b"), Path("", <<Lit("q"), Var("d")>>)>>, <<>>, <<>>, <<>>, <<>>),
               [k |-> "default", paths |-> <<PP("all")>>],
               [k |-> "default", paths |-> <<PP("a"), PP("b")>>] >>
 
